@@ -23,7 +23,10 @@ var patterns = []string{"literal", "const", "let", "let-reassigned-before", "let
 	// later in the source, not executed) assigns the index
 	"match-later-arm", "match-earlier-arm", "else-after-then-assign", "then-before-else-assign", "elseif-middle",
 	// index expressions that go through a narrowing cast (the value wraps) or a widening one
-	"cast-wrap-u8", "cast-wrap-i8", "cast-widen"}
+	"cast-wrap-u8", "cast-wrap-i8", "cast-widen",
+	// the index changes between two iterations of a loop, but not by an assignment to it:
+	// through a mutable reference, or in a callee that was handed one
+	"ref-write-in-loop-after", "refarg-in-loop-after", "ref-write-in-for-after"}
 var accesses = []string{"read", "write", "compound-write", "read-twice", "borrow-read", "field-read", "field-write", "optional-init", "arg", "return"}
 
 type spec struct {
@@ -136,7 +139,7 @@ func build(s spec, sfx string) (*fl.Program, bool) {
 	case "let-shadowing-block":
 		// an inner block declares its own i; the access uses the outer one
 		pre = []fl.Stmt{leti(k), &fl.Block{Body: []fl.Stmt{&fl.Let{Name: "i", T: fl.I32, Init: i32(other)}, fl.P(fl.V("i"))}}}
-	case "reassigned-in-loop-after", "reassigned-in-for-after", "closure-sees-later-value":
+	case "reassigned-in-loop-after", "reassigned-in-for-after", "closure-sees-later-value", "ref-write-in-loop-after", "refarg-in-loop-after", "ref-write-in-for-after":
 		// handled below: the access sits inside a loop / a closure
 	case "catch-handler-not-run":
 		// the handler of a catch that is not taken assigns the index
@@ -235,6 +238,21 @@ func build(s spec, sfx string) (*fl.Program, bool) {
 		// two iterations: i is k in the first, `other` in the second
 		loop := &fl.While{Cond: fl.B("<", fl.V("t"), i32(2)), Body: append(append([]fl.Stmt{fl.P(fl.S("before"))}, acc...), &fl.Assign{LHS: fl.V("i"), RHS: i32(other)}, &fl.IncDec{LHS: fl.V("t"), Inc: true})}
 		body = append(append(append([]fl.Stmt{}, decl...), leti(k), &fl.Let{Name: "t", T: fl.I32, Init: i32(0)}, loop), dump...)
+	case "ref-write-in-loop-after", "refarg-in-loop-after", "ref-write-in-for-after":
+		// two iterations: i is k in the first, `other` in the second
+		var change fl.Stmt = &fl.Block{Body: []fl.Stmt{&fl.Let{Name: "ri", T: fl.TRef{Elem: fl.I32, Mut: true}, Init: &fl.Borrow{X: fl.V("i"), Mut: true}}, &fl.Assign{LHS: fl.V("ri"), RHS: i32(other)}}}
+		if s.pat == "refarg-in-loop-after" {
+			p.Funcs = append(p.Funcs, &fl.Func{Name: "setix" + sfx, Params: []fl.Param{{"r", fl.TRef{Elem: fl.I32, Mut: true}}, {"v", fl.I32}}, Body: []fl.Stmt{&fl.Assign{LHS: fl.V("r"), RHS: fl.V("v")}}})
+			change = &fl.ExprStmt{X: fl.C("setix"+sfx, &fl.Borrow{X: fl.V("i"), Mut: true}, i32(other))}
+		}
+		lb := append(append([]fl.Stmt{fl.P(fl.S("before"))}, acc...), change)
+		if s.pat == "ref-write-in-for-after" {
+			loop := &fl.ForRange{Var: "t", Lo: fl.V("lo"), Hi: fl.V("hi"), Body: lb}
+			body = append(append(append([]fl.Stmt{}, decl...), leti(k), &fl.Let{Name: "lo", T: fl.I32, Init: i32(0)}, &fl.Let{Name: "hi", T: fl.I32, Init: i32(2)}, loop), dump...)
+		} else {
+			loop := &fl.While{Cond: fl.B("<", fl.V("t"), i32(2)), Body: append(lb, &fl.IncDec{LHS: fl.V("t"), Inc: true})}
+			body = append(append(append([]fl.Stmt{}, decl...), leti(k), &fl.Let{Name: "t", T: fl.I32, Init: i32(0)}, loop), dump...)
+		}
 	case "reassigned-in-for-after":
 		loop := &fl.ForRange{Var: "t", Lo: fl.V("lo"), Hi: fl.V("hi"), Body: append(append([]fl.Stmt{fl.P(fl.S("before"))}, acc...), &fl.Assign{LHS: fl.V("i"), RHS: i32(other)})}
 		body = append(append(append([]fl.Stmt{}, decl...), leti(k), &fl.Let{Name: "lo", T: fl.I32, Init: i32(0)}, &fl.Let{Name: "hi", T: fl.I32, Init: i32(2)}, loop), dump...)
